@@ -198,6 +198,7 @@ type job struct {
 type workerReq struct {
 	SMT     string `json:"smt"`
 	Timeout int    `json:"timeout"`
+	Only    string `json:"only,omitempty"` // run just this solver
 }
 type workerResp struct {
 	Status string  `json:"status"` // unsat sat unknown
@@ -247,6 +248,16 @@ func workerMain() {
 			return
 		}
 		resp := workerResp{Status: "unknown"}
+		if req.Only != "" {
+			for _, sp := range solvers {
+				if sp.name == req.Only {
+					st, o, secs := runSolver(sp, req.SMT, req.Timeout)
+					resp.Status, resp.Solver, resp.Out, resp.Secs = st, sp.name, o, secs
+				}
+			}
+			out.Encode(&resp)
+			continue
+		}
 		if st, o, secs, ok := persistentZ3(req.SMT, req.Timeout); ok {
 			resp.Secs += secs
 			if st == "unsat" || st == "sat" {
@@ -301,6 +312,19 @@ func (e *Enc) solveVia(w *worker, o *Obl, timeout int) *Verdict {
 		v.Status, v.Raw = "undecided", resp.Raw
 	}
 	return v
+}
+
+func (w *worker) runOne(solver, smt string, timeout int) string {
+	if err := w.in.Encode(&workerReq{SMT: smt, Timeout: timeout, Only: solver}); err != nil {
+		return "unknown"
+	}
+	line, err := w.out.ReadBytes('\n')
+	if err != nil {
+		return "unknown"
+	}
+	var resp workerResp
+	json.Unmarshal(line, &resp)
+	return resp.Status
 }
 
 func solveAll(jobs []job, timeout int, workers int) []*Verdict {
